@@ -52,6 +52,7 @@ func GenPath(r *rand.Rand, root reflect.Value, maxDepth int) Path {
 					s = Step{Kind: SCall, Name: "Size"}
 				}
 			}
+			s.Bracket = r.Intn(4) == 0
 			p.Steps = append(p.Steps, s)
 			return p
 		}
@@ -74,11 +75,12 @@ func GenPath(r *rand.Rand, root reflect.Value, maxDepth int) Path {
 						s = Step{Kind: SCall, Name: "Val"}
 					}
 				}
+				s.Bracket = r.Intn(4) == 0
 				break
 			}
 			if (base.Type().Name() == "Box" || base.Type().Name() == "PBox") && r.Intn(3) == 0 {
 				// Box has a value-receiver Label(), *PBox a pointer-receiver one (always reached through a pointer here)
-				s = Step{Kind: SCall, Name: "Label"}
+				s = Step{Kind: SCall, Name: "Label", Bracket: r.Intn(4) == 0}
 				break
 			}
 			if len(names) == 0 {
